@@ -63,7 +63,10 @@ SkipWithSplitReason == { Call("skip", "details", <<D("reason", "text", <<"e1", "
 \* one detail of each case-variant content type: two tests of one run give every ordered pair
 CaseCalls == { Call(k, "details", <<D("d1", ct, <<"x">>)>>, None) : k \in {"success"}, ct \in CaseCTs }
 
-CallsOver(P) == { Call(k, "details", p, None) : k \in Kinds, p \in P } \cup Fixed \cup SkipWithSplitReason
+\* addSkip given BOTH a reason and a details dict that has no 'reason' entry ({} included), as a forwarding result does
+SkipWithBoth == { Call("skip", "both", p, r) : p \in {P0, P1, P2}, r \in {"r1"} } \cup { Call("skip", "both", P0, "") }
+
+CallsOver(P) == { Call(k, "details", p, None) : k \in Kinds, p \in P } \cup Fixed \cup SkipWithSplitReason \cup SkipWithBoth
 CallsQ == CallsOver(PayQ) \cup SkipWithReasonDetail({P0, P1, P2})
 CallsT == CallsOver(PayT) \cup SkipWithReasonDetail({P0, P1, P2, P3})
 
@@ -71,7 +74,7 @@ CallsT == CallsOver(PayT) \cup SkipWithReasonDetail({P0, P1, P2, P3})
 CallsH == Fixed \cup { Call("success", "details", P2, None), Call("failure", "details", P3, None),
                        Call("error", "details", P1, None), Call("skip", "details", P3, None),
                        Call("xfail", "details", P1, None), Call("uxsuccess", "details", P2, None) }
-              \cup SkipWithReasonDetail({P1}) \cup CaseCalls
+              \cup SkipWithReasonDetail({P1}) \cup CaseCalls \cup SkipWithBoth
 \* three tests: one form per kind
 CallsS == { Call("success", "plain", <<>>, None), Call("failure", "exc", <<>>, None),
             Call("error", "details", P1, None), Call("skip", "reason", <<>>, "r1"),
@@ -93,6 +96,9 @@ CallsK == { Call("success", "plain", <<>>, None), Call("error", "details", P1, N
             Call("skip", "reason", <<>>, "r1") }
 \* three tests, exported: four calls
 CallsS4 == CallsK \cup { Call("xfail", "details", P2, None) }
+
+\* two runs on one decorator chain (sc_exp2r: time() / tags() given in one run must not reach the other): two calls
+CallsRR == { Call("success", "plain", <<>>, None), Call("error", "details", P1, None) }
 
 \* tags() and time() are explored separately in the tag/time heavy export
 NotBoth == nTags = 0 \/ nTime = 0
